@@ -18,6 +18,7 @@ RULES_DOC = dict(common.SHARED_DOC)
 RULES_DOC["X7"] = common.X7_DOC
 RULES_DOC["X4"] = common.X4_DOC
 RULES_DOC["X5"] = common.X5_DOC
+RULES_DOC["R6"] = "= C06.R5: the scheduler of a blocked waiter's pool keeps running while the waiter is blocked, for every shared access mode: the set that makes the eventual / future ready pushes the waiter to a pool that is still consumed"
 RULES_DOC["R5"] = "= C06.R2 and C06.R1/R3/R4: the waiter that a set wakes is pushed before it stops being counted as blocked, and is counted on the pool it will be resumed on (a woken waiter is never stranded in a pool whose stream already terminated)"
 RULES_DOC["X6"] = common.X6_DOC
 RULES_DOC.update({
@@ -318,3 +319,4 @@ def run(P, rep, tier):
     from . import C06
     common.borrow(rep, P, C06.rule_R2, "R5")
     common.borrow(rep, P, C06.rule_R1_R3_R4, "R5")
+    common.borrow(rep, P, C06.rule_R5, "R6")
